@@ -81,6 +81,11 @@ def check(rep):
         if names and len(names) <= 2:
             for val in valuations(names, coarse):
                 cases.append((tree, label + " after other evaluations", val, "at-after-other"))
+    for tree, label in inst1 + constant_child_instances(model, tier):
+        names = spec.variables(tree)
+        if len(names) == 1:
+            for val in valuations(names, atoms):
+                cases.append((tree, label + " (bare number)", val, "number"))
     results = pmap(eval_case, [(t, v, api) for (t, l, v, api) in cases])
     per_class = {}
     for (tree, label, val, _api), res in zip(cases, results):
